@@ -173,5 +173,22 @@ def _xarray_dataset(
             dims = tuple(f"{name}_dim_{i}" for i in range(array.ndim))
             ds[name] = (dims, array)
         else:
-            ds[name] = array if isinstance(array, np.ndarray) else ((), array)
+            ds[name] = array if isinstance(array, np.ndarray) else ((), _as_0d(array))
     return ds
+
+
+def _as_0d(value: Any) -> Any:
+    """Return `value` in a form that xarray stores as a dimensionless variable.
+
+    xarray unpacks a list (or any other sequence NumPy understands) into an n-D
+    array, which then does not fit the empty dimensions tuple; such a value is
+    boxed in a 0-d object array.
+    """
+    try:
+        if np.ndim(value) == 0:
+            return value
+    except ValueError:  # a ragged nested sequence
+        pass
+    boxed = np.empty((), dtype=object)
+    boxed[()] = value
+    return boxed
